@@ -764,3 +764,27 @@ impl Server {
         }
     }
 }
+
+#[cfg(uflow_verif)]
+impl Server {
+    /// One line per tracked client (sorted by address), for the verification harness.
+    pub fn verif_dump(&self) -> String {
+        let mut addrs: Vec<&net::SocketAddr> = self.clients.keys().collect();
+        addrs.sort();
+        let mut parts = Vec::new();
+        for addr in addrs {
+            let client = self.clients[addr].borrow();
+            let st = match client.state {
+                remote_client::State::Pending(ref p) => format!("P{}:{}", p.local_nonce, p.remote_nonce),
+                remote_client::State::Active(ref a) => format!("A{}:{}:[{}]", a.timeout_time_ms,
+                    match a.disconnect_signal { None => "-", Some(remote_client::DisconnectMode::Now) => "N", Some(remote_client::DisconnectMode::Flush) => "F" },
+                    a.half_connection.verif_dump()),
+                remote_client::State::Closing => "C".to_string(),
+                remote_client::State::Closed => "D".to_string(),
+                remote_client::State::Fin => "F".to_string(),
+            };
+            parts.push(format!("{}={}", addr.port(), st));
+        }
+        format!("clients={} active={} events={} {}", self.clients.len(), self.active_clients.len(), self.client_events.len(), parts.join(" "))
+    }
+}
